@@ -1,5 +1,6 @@
 """C11 — gridded-forecast files: correspondence of csep.load_gridded_forecast / GriddedForecast.load_ascii / get_rates / scale /
-scale_to_test_date / sum / spatial_counts / magnitude_counts (and the quadtree loaders) with Model/ForecastFile.lean,
+scale_to_test_date / sum / spatial_counts (list and map layout) / magnitude_counts / target_event_rates (and the quadtree
+loaders) with Model/ForecastFile.lean,
 plus a direct oracle (dictionary from box to rate built from the written rows)."""
 import calendar
 import datetime
@@ -18,8 +19,11 @@ LEVEL_TEXT = ("Proof: for every well-formed file (decidable predicate; any cell 
               "column order) the loaded forecast returns a row's rate for every point of the row's half-open space-magnitude box "
               "(lower corner included), its magnitudes are the file's distinct lower edges, cells flagged 0 are outside, the total is "
               "the sum of the rate column, column-swapped files load to the same forecast, any history of scale / "
-              "scale_to_test_date calls leaves data = base x last factor, and both marginals sum to the total. Unbounded in rows "
-              "and histories (kernel-checked). Tied to the code by generated files.")
+              "scale_to_test_date calls leaves data = base x last factor, and both marginals sum to the total; the map layout "
+              "spatial_counts(cartesian=True) shows each cell's count at its bounding-box node (NaN elsewhere), is scaled "
+              "absolutely and sums to the total; calls that only read the forecast (target_event_rates with and without "
+              "scale, get_rates, sum, both marginals, data) leave it unchanged and return a function of base and the factor in "
+              "force. Unbounded in rows and histories (kernel-checked). Tied to the code by generated files.")
 LEVEL_NOTE = ("The region's point lookup and bin1d_vec are modelled by their exact half-open meaning (C01/C02 treat the float bin "
               "formula); probes within 1e-10 relative below an edge may go either way. numpy.loadtxt/genfromtxt tokenisation, "
               "mercantile tile bounds and the decimal-year arithmetic are inputs (checked numerically), not modelled. Sums are "
@@ -33,7 +37,12 @@ THEOREMS = ["ForecastFile.load_eq", "ForecastFile.load_some_of_wellFormed", "For
             "ForecastFile.total_eq_rate_sum", "ForecastFile.swap_latlon_eq", "ForecastFile.swap_latlon_rates",
             "ForecastFile.scale_absolute", "ForecastFile.scale_last_wins", "ForecastFile.scale_to_test_date_absolute",
             "ForecastFile.data_linear", "ForecastFile.getRates_runOps", "ForecastFile.marginals_sum",
-            "ForecastFile.loaded_shape"]
+            "ForecastFile.loaded_shape",
+            # the map layout of the spatial marginal, and calls that only read the forecast
+            "ForecastFile.spatialCounts_runOps", "ForecastFile.cartesian_scale_absolute", "ForecastFile.cartesian_entry",
+            "ForecastFile.cartesian_masked", "ForecastFile.cartesian_nansum", "ForecastFile.cartesian_sum_total",
+            "ForecastFile.reads_leave_forecast", "ForecastFile.reads_leave_data", "ForecastFile.read_observation",
+            "ForecastFile.read_twice_same", "ForecastFile.target_rates_runOps"]
 TRUSTED = ["Lean 4.33 kernel", "axioms: propext, Classical.choice, Quot.sound at most",
            "numpy.loadtxt / genfromtxt return the doubles written with repr(); numpy.unique(return_index) + sort gives the "
            "distinct rows in first-appearance order; reshape is row-major",
@@ -42,12 +51,19 @@ TRUSTED = ["Lean 4.33 kernel", "axioms: propext, Classical.choice, Quot.sound at
            "Soft64.fl64 is binary64 rounding (validated against numpy on every run); float(Decimal) is correctly rounded",
            "mercantile tile bounds (taken from the implementation when the quadtree file is written)",
            "decimal_year arithmetic (the fraction is taken from the implementation and checked against exact rational arithmetic)",
+           "the bounding-box node of a cell (CartesianGrid2D._build_bitmask_vec hashes midpoints with bin1d_vec: C01/C02) is "
+           "computed by the harness from the decimal lattice of the written corners and given to the model",
            "harness/c11.py generators, canonicalisation, comparison; driver parsing (Drive/C11.lean, Proto.lean)"]
 RULE = ("generated files: decimal lattices (7 spacings, negative / positive / zero-crossing anchors, 1..6 x 1..6 cells, holes, "
         "shuffled cell order, flags 0/1, 1..8 magnitude bins, 3 number layouts, both column orders), quadtree partitions (ASCII "
         "and CSV layouts); probes at every sampled row's lower corner, centre, just inside each upper face, on upper faces, in the "
         "round-off band, below the first / above the last magnitude edge, outside the region; scale histories of 0..5 calls incl. "
-        "scale_to_test_date inside / outside / on the period's ends; malformed files whose reshape must fail. A file is "
+        "scale_to_test_date inside / outside / on the period's ends, with 0..4 read-only calls (target_event_rates scale=True / "
+        "False on a catalog of inside probes, get_rates, sum, event_count, spatial_counts, spatial_counts(cartesian=True), "
+        "magnitude_counts, data, accessors) inserted before, between and after them, each made twice with a bit-for-bit "
+        "snapshot of data around every call; ALL views (data, sum, event_count, both layouts of the spatial marginal, the "
+        "magnitude marginal, get_rates) are compared with base x factor before the history and after every call; malformed "
+        "files whose reshape must fail. A file is "
         "non-trivial when it has >= 2 cells and >= 2 magnitude bins or a hole or a zero flag; distinct by (rows, ops).")
 
 EPS_BAND = Fraction(1, 10 ** 10)
@@ -105,6 +121,11 @@ def gen_mags(rng):
     return m0, m1
 
 
+# read-only calls of a history: target_event_rates(catalog, scale=True / False), get_rates, sum, event_count,
+# spatial_counts(), spatial_counts(cartesian=True), magnitude_counts(), data, and the small accessors
+READS = ["tr1", "tr1", "tr0", "gr", "sum", "ec", "sc", "scc", "scc", "mc", "data", "misc"]
+
+
 def gen_ops(rng):
     n = rng.choice([0, 1, 1, 2, 3, 4, 5])
     start = datetime.datetime(rng.choice([2007, 2008, 2010, 2019, 2020, 1999]), rng.choice([1, 3, 9, 12]), rng.choice([1, 15, 28]))
@@ -128,6 +149,10 @@ def gen_ops(rng):
             else:
                 t = end + datetime.timedelta(days=rng.randrange(1, 400))
             ops.append(["t", t.isoformat()])
+    # calls that only READ the forecast, at the start (factor exactly 1, as loaded), between and after the scale calls
+    for _ in range(rng.choice([0, 1, 1, 2, 3, 4])):
+        pos = rng.choice([0, 0, len(ops), rng.randint(0, len(ops))])
+        ops.insert(pos, ["r", rng.choice(READS)])
     return start.isoformat(), end.isoformat(), ops
 
 
@@ -287,6 +312,25 @@ class Oracle:
         self.band = case["layout"] == "cart"
         self.fcells = [(tuple(Fraction(v) for v in c), c) for c in self.cells]
 
+    def positions(self, dlo, dhi):
+        """(ny, nx, [(iy, ix) per cell in file order]) of the bounding-box (map) layout: the lattice spanned by the cells'
+        lower-left corners with the file's decimal step; None when the corners are not on one decimal lattice"""
+        h = Fraction(dhi) - Fraction(dlo)
+        if h <= 0:
+            return None
+        xs = [dec_of_repr(c[0]) for c in self.order]
+        ys = [dec_of_repr(c[2]) for c in self.order]
+        x0, y0 = min(xs), min(ys)
+        pos = []
+        for x, y in zip(xs, ys):
+            ix, iy = (x - x0) / h, (y - y0) / h
+            if ix.denominator != 1 or iy.denominator != 1:
+                return None
+            pos.append((int(iy), int(ix)))
+        if len(set(pos)) != len(pos):
+            return None
+        return max(p[0] for p in pos) + 1, max(p[1] for p in pos) + 1, pos
+
     def exact(self, lon, lat, m):
         """'x' (outside / flagged / below the first magnitude) or the rate (float) of the box containing the probe"""
         hit = None
@@ -380,7 +424,7 @@ def probe_impl(fc, lon, lat, m):
         return f"error:{type(e).__name__}"
 
 
-def run_case(run, drv, pending, case, tmpdir, tag):
+def run_case(run, drv, pending, case, tmpdir, tag, tier_quick=True):
     lay = case["layout"]
     fn = write_file(case, tmpdir, tag)
     orc = Oracle(case)
@@ -405,7 +449,7 @@ def run_case(run, drv, pending, case, tmpdir, tag):
     if case["malformed"]:
         run.count("malformed")
         i = drv.ask(line.replace(" OPS", " -"))
-        pending.append((case, i, None if err else "loaded", None))
+        pending.append((case, i, None if err else "loaded", None, None))
         run.case(summary, None)
         return
     if err:
@@ -470,9 +514,99 @@ def run_case(run, drv, pending, case, tmpdir, tag):
                                f"probe {tagp} at lon={p[0]!r} lat={p[1]!r} mag={p[2]!r}: get_rates gives {got!r}, "
                                f"the file's box gives {allowed[j]!r}")
             return
-    # ---- marginals are queried before, between and after the scale calls (a cached marginal must not go stale)
-    def marginals_ok(when):
-        data = numpy.asarray(fc.data, dtype=float)
+    # ---- every view of the forecast (data, sum, event_count, both layouts of the spatial marginal, the magnitude marginal,
+    #      rate lookups) is probed before, between and after the calls of the history: all must agree with
+    #      data = base x the factor in force (a cached / unscaled / corrupted view must not go unnoticed)
+    start = datetime.datetime.fromisoformat(case["start"])
+    end = datetime.datetime.fromisoformat(case["end"])
+    days = (end - start).days
+    pts_in = [j for j in vec if len(allowed[j]) == 1][:12]    # inside, and not in the round-off band below an edge
+    flags = [orc.cells[c] for c in orc.order]
+    layout = orc.positions(dlo, dhi) if lay == "cart" else None
+    state = dict(factor=1, quad=None, quad_off=False, cat=None)
+    if lay == "cart" and layout is None:
+        run.count("cartesian-layout:positions-unknown")
+
+    def bits_equal(a_, b_):
+        return a_.shape == b_.shape and numpy.array_equal(numpy.ascontiguousarray(a_).view(numpy.int64),
+                                                           numpy.ascontiguousarray(b_).view(numpy.int64))
+
+    def snapshot():
+        return numpy.array(fc.data, dtype=float)
+
+    def cart_view():
+        """spatial_counts(cartesian=True) as a float array; quadtree regions print and may refuse uncovered rasters"""
+        if lay == "cart":
+            return numpy.array(fc.spatial_counts(cartesian=True), dtype=float)
+        import contextlib, io
+        if state["quad_off"]:
+            return None
+        if state["quad"] is None:
+            xs_ = sorted({c[0] for c in orc.order}); ys_ = sorted({c[2] for c in orc.order})
+            if len(xs_) * len(ys_) > (150 if tier_quick else 600):
+                state["quad_off"] = True
+                return None
+            idx = [[next((k for k, c in enumerate(orc.order) if c[0] <= x < c[1] and c[2] <= y < c[3]), None) for x in xs_]
+                   for y in ys_]
+            state["quad"] = idx
+        try:
+            with contextlib.redirect_stdout(io.StringIO()):
+                return numpy.array(fc.spatial_counts(cartesian=True), dtype=float)
+        except (ValueError, IndexError):     # raster point in no tile of a partial partition: not a statement of C11
+            state["quad_off"] = True
+            run.count("cartesian-layout:quadtree-raster-refused")
+            return None
+
+    def cart_ok(when, want):
+        """the map layout: the value of cell k at its bounding-box position, NaN elsewhere (holes, cells flagged 0)"""
+        cart = cart_view()
+        if cart is None:
+            return True
+        rows_ = [math.fsum(want[i, :]) for i in range(want.shape[0])]
+        if lay == "cart":
+            if layout is None:
+                ok = close(float(numpy.nansum(cart)), math.fsum(r for r, f in zip(rows_, flags) if f == 1))
+                exp = None
+            else:
+                ny, nx, pos = layout
+                exp = numpy.full((ny, nx), numpy.nan)
+                for k, (iy, ix) in enumerate(pos):
+                    if flags[k] == 1:
+                        exp[iy, ix] = rows_[k]
+        else:
+            exp = numpy.array([[numpy.nan if k is None else rows_[k] for k in r] for r in state["quad"]], dtype=float)
+        if exp is not None:
+            ok = cart.shape == exp.shape and numpy.array_equal(numpy.isnan(cart), numpy.isnan(exp)) and \
+                all(close(a_, b_) for a_, b_ in zip(cart[~numpy.isnan(exp)].ravel(), exp[~numpy.isnan(exp)].ravel()))
+        run.count("view:cartesian-layout")
+        if not ok:
+            run.oracle_failure(case, f"{when}: spatial_counts(cartesian=True) is not the spatial marginal of base x "
+                                     f"{state['factor']!r} laid out on the bounding box (got {cart.tolist()!r}, expected "
+                                     f"{None if exp is None else exp.tolist()!r})")
+        return ok
+
+    def lookups(when, want_factor):
+        if not pts_in:
+            return True
+        try:
+            r = fc.get_rates(numpy.array([pts[j][0] for j in pts_in]), numpy.array([pts[j][1] for j in pts_in]),
+                             numpy.array([pts[j][2] for j in pts_in]))
+            bad = [j for j, v in zip(pts_in, r) if hx(v) != hx(vec[j] * want_factor)] if len(r) == len(pts_in) else ["length"]
+        except Exception as e:
+            bad = [f"{type(e).__name__}: {e}"]
+        run.count("probe:in-history", len(pts_in))
+        if bad:
+            run.oracle_failure(case, f"{when}: get_rates is not base rate x {want_factor!r} ({bad[:2]}; history {case['ops']})")
+            return False
+        return True
+
+    def views_ok(when):
+        factor = state["factor"]
+        want = base * factor
+        data = snapshot()
+        if not bits_equal(data, want):
+            run.oracle_failure(case, f"{when}: data is not base x {factor!r} (history {case['ops']})")
+            return False
         tot = float(fc.sum())
         sc = numpy.asarray(fc.spatial_counts(), dtype=float)
         mc = numpy.asarray(fc.magnitude_counts(), dtype=float)
@@ -487,15 +621,107 @@ def run_case(run, drv, pending, case, tmpdir, tag):
             run.oracle_failure(case, f"{when}: marginals / event_count do not sum to the total: "
                                      f"{math.fsum(sc)!r} {math.fsum(mc)!r} {ec!r} {tot!r}")
             return False
-        return True
-    if not marginals_ok("before scaling"):
+        return cart_ok(when, want) and lookups(when, factor)
+
+    def target_catalog():
+        if state["cat"] is None:
+            from csep.core import catalogs
+            state["cat"] = catalogs.CSEPCatalog(data=[(f"e{n_}", 1262304000000 + 1000 * n_, pts[j][1], pts[j][0], 5.0, pts[j][2])
+                                                      for n_, j in enumerate(pts_in)])
+        return state["cat"]
+
+    def read_once(kind):
+        """one read-only call; returns (canonical observation for the model | None, error text | None)"""
+        factor = state["factor"]
+        want = base * factor
+        if kind in ("tr1", "tr0"):
+            rates, nf = fc.target_event_rates(target_catalog(), scale=(kind == "tr1"))
+            div = days if kind == "tr1" else 1
+            rates = [float(v) for v in numpy.asarray(rates, dtype=float)]
+            exp = [float(numpy.float64(vec[j]) * factor) / div for j in pts_in]
+            if len(rates) != len(exp) or not all(close(a_, b_, 1e-12) for a_, b_ in zip(rates, exp)):
+                return None, f"target_event_rates(scale={kind == 'tr1'}) = {rates[:3]!r}, base rate x {factor!r} / {div} = {exp[:3]!r}"
+            if not close(float(nf), math.fsum(want.ravel()) / div):
+                return None, f"target_event_rates(scale={kind == 'tr1'}) total {float(nf)!r}, expected {math.fsum(want.ravel()) / div!r}"
+            return dict(rates=rates, total=float(nf)), None
+        if kind == "gr":
+            r = fc.get_rates(numpy.array([pts[j][0] for j in pts_in]), numpy.array([pts[j][1] for j in pts_in]),
+                             numpy.array([pts[j][2] for j in pts_in]))
+            rates = [float(v) for v in r]
+            if [hx(v) for v in rates] != [hx(vec[j] * factor) for j in pts_in]:
+                return None, f"get_rates = {rates[:3]!r} is not base rate x {factor!r}"
+            return dict(rates=rates), None
+        if kind in ("sum", "ec"):
+            v = float(fc.sum() if kind == "sum" else fc.event_count)
+            return (dict(total=v), None) if close(v, math.fsum(want.ravel())) else (None, f"{kind} = {v!r}, expected {math.fsum(want.ravel())!r}")
+        if kind == "sc":
+            v = [float(t) for t in numpy.asarray(fc.spatial_counts(), dtype=float)]
+            exp = [math.fsum(want[i, :]) for i in range(want.shape[0])]
+            return (dict(vals=v), None) if len(v) == len(exp) and all(close(a_, b_) for a_, b_ in zip(v, exp)) else \
+                (None, f"spatial_counts() = {v[:4]!r}, expected {exp[:4]!r}")
+        if kind == "mc":
+            v = [float(t) for t in numpy.asarray(fc.magnitude_counts(), dtype=float)]
+            exp = [math.fsum(want[:, k]) for k in range(want.shape[1])]
+            return (dict(vals=v), None) if len(v) == len(exp) and all(close(a_, b_) for a_, b_ in zip(v, exp)) else \
+                (None, f"magnitude_counts() = {v[:4]!r}, expected {exp[:4]!r}")
+        if kind == "scc":
+            cart = cart_view()           # validated by cart_ok in views_ok right after the call
+            if cart is None or lay != "cart" or layout is None:
+                return dict(skip=True), None
+            return dict(grid=[[None if numpy.isnan(v) else float(v) for v in r] for r in cart]), None
+        if kind == "data":
+            d = snapshot()
+            return (dict(vals=[float(v) for v in d.ravel()]), None) if bits_equal(d, want) else (None, f"data is not base x {factor!r}")
+        if kind == "misc":
+            m2 = [float(v) for v in numpy.asarray(fc.get_magnitudes())]
+            ok = m2 == orc.mags and float(fc.min_magnitude) == min(orc.mags) and fc.num_mag_bins == len(orc.mags) and \
+                fc.num_nodes == len(orc.order) and [float(v) for v in fc.get_longitudes()] == [c[0] for c in orc.order] and \
+                [float(v) for v in fc.get_latitudes()] == [c[2] for c in orc.order]
+            if pts_in:
+                fc.get_index_of(numpy.array([pts[j][0] for j in pts_in]), numpy.array([pts[j][1] for j in pts_in]))
+                fc.get_magnitude_index(numpy.array([pts[j][2] for j in pts_in]))
+            return (dict(skip=True), None) if ok else (None, "magnitudes / cell origins / counts of cells and bins changed")
+        raise RuntimeError(f"unknown read {kind}")
+
+    def do_read(kind):
+        """a read-only call, twice: right answer both times, and the forecast's rates are bit-for-bit what they were"""
+        if kind in ("tr1", "tr0", "gr") and not pts_in:
+            run.count("read-skipped:no-inside-probe")
+            return dict(skip=True)
+        before = snapshot()
+        obs = None
+        for rep in (1, 2):
+            try:
+                o, errtext = read_once(kind)
+            except Exception as e:
+                o, errtext = None, f"raised {type(e).__name__}: {e}"
+            if errtext:
+                run.oracle_failure(case, f"read {kind} (call {rep}) at factor {state['factor']!r}: {errtext} (history {case['ops']})")
+                return None
+            if not bits_equal(snapshot(), before):
+                run.oracle_failure(case, f"read {kind} (call {rep}) changed the forecast: data is no longer what it was before "
+                                         f"the call (history {case['ops']})")
+                return None
+            obs = obs or o
+        run.count("read:" + kind)
+        if not views_ok(f"after read {kind}"):
+            return None
+        return obs
+
+    if not views_ok("before the history"):
         return
-    # ---- scale histories
-    start = datetime.datetime.fromisoformat(case["start"])
-    end = datetime.datetime.fromisoformat(case["end"])
+    # ---- histories of scale / scale_to_test_date calls with read-only calls in between
     factor = 1
-    enc_ops = []
+    enc_ops, enc_calls, observations = [], [], []
     for op in case["ops"]:
+        if op[0] == "r":
+            o = do_read(op[1])
+            if o is None:
+                return
+            if not o.get("skip"):
+                enc_calls.append("r," + op[1] + ("," + str(days) if op[1] == "tr1" else ""))
+                observations.append((op[1], o))
+            continue
         if op[0] == "s":
             v = int(op[1][4:]) if op[1].startswith("int:") else fh(op[1])
             res = fc.scale(v)
@@ -517,40 +743,16 @@ def run_case(run, drv, pending, case, tmpdir, tag):
             else:
                 enc_ops.append("t,none")
                 run.count("op:test_date-outside")
+        enc_calls.append(enc_ops[-1])
+        state["factor"] = factor
         if res is not fc:
             run.oracle_failure(case, "scale / scale_to_test_date did not return the forecast itself")
             return
-        # absolute, never cumulative: data = base x the factor in force
-        want = base * factor
-        got = numpy.asarray(fc.data, dtype=float)
-        if got.shape != want.shape or not all(hx(a) == hx(b) for a, b in zip(got.ravel(), want.ravel())):
-            run.oracle_failure(case, f"after {op}: data is not base x {factor!r} (history {case['ops']})")
-            return
-        if not marginals_ok(f"after {op}"):
+        # absolute, never cumulative: data = base x the factor in force, in every view
+        if not views_ok(f"after {op}"):
             return
     data = numpy.asarray(fc.data, dtype=float)
     tot, sc, mc = float(fc.sum()), numpy.asarray(fc.spatial_counts(), dtype=float), numpy.asarray(fc.magnitude_counts(), dtype=float)
-    if sc.shape != (data.shape[0],) or mc.shape != (data.shape[1],) or \
-            not all(close(sc[i], math.fsum(data[i, :])) for i in range(data.shape[0])) or \
-            not all(close(mc[k], math.fsum(data[:, k])) for k in range(data.shape[1])):
-        run.oracle_failure(case, "spatial_counts / magnitude_counts are not the row / column sums of data")
-        return
-    if not (close(math.fsum(sc), tot) and close(math.fsum(mc), tot) and close(tot, math.fsum(data.ravel()))):
-        run.oracle_failure(case, f"marginals do not sum to the total: {math.fsum(sc)!r} {math.fsum(mc)!r} {tot!r}")
-        return
-    # lookups after the history return base rate x the factor in force
-    if vec and case["ops"]:
-        js = list(vec)[:12]
-        try:
-            r = fc.get_rates(numpy.array([pts[j][0] for j in js]), numpy.array([pts[j][1] for j in js]),
-                             numpy.array([pts[j][2] for j in js]))
-            bad = [j for j, v in zip(js, r) if hx(v) != hx(vec[j] * factor)]
-        except Exception as e:
-            bad = [f"{type(e).__name__}: {e}"]
-        run.count("probe:after-scale", len(js))
-        if bad:
-            run.oracle_failure(case, f"get_rates after the scale history {case['ops']} is not base rate x {factor!r} ({bad[:2]})")
-            return
     # ---- model
     i = drv.ask(line.replace(" OPS", " " + (";".join(enc_ops) or "-")))
     dh = float(fc.region.dh) if lay == "cart" else None
@@ -559,7 +761,16 @@ def run_case(run, drv, pending, case, tmpdir, tag):
                 factor=fc._scale, data=[float(v) for v in data.ravel()], total=tot, spatial=[float(v) for v in sc],
                 magc=[float(v) for v in mc])
     band = [len(a) > 1 for a in allowed]
-    pending.append((case, i, impl, band))
+    hist = None
+    if observations:
+        # the read-only calls of the history, in the model: each returns a function of base and the factor in force
+        posenc = ",".join(f"{a}:{b}" for a, b in layout[2]) if layout else "-"
+        ny_, nx_ = (layout[0], layout[1]) if layout else (0, 0)
+        ptsenc = ";".join(",".join(frac(v) for v in pts[j]) for j in pts_in) or "-"
+        ih = drv.ask(" ".join(["c11_hist", "1" if case["swap"] else "0", frac(dlo), frac(dhi), enc_rows(case), ptsenc,
+                               ";".join(enc_calls) or "-", posenc, str(ny_), str(nx_)]))
+        hist = (ih, observations, fc._scale)
+    pending.append((case, i, impl, band, hist))
     nontriv = (len(orc.order) >= 2 and len(orc.mags) >= 2) or any(r[9] != 1 for r in rows)
     run.case(summary, (tuple(tuple(r) for r in rows), json.dumps(case["ops"])) if nontriv else None)
 
@@ -568,10 +779,56 @@ def rlist(s):
     return [] if s == "-" else [Fraction(t) for t in s.split(",")]
 
 
+def obs_differs(kind, o, rec):
+    """compare one read-only call's observation (implementation) with the model's record; returns a text or None"""
+    tag, _, body = rec.partition(":")
+    try:
+        if kind in ("tr1", "tr0", "gr"):
+            rates, _, total = body.partition(":")
+            mr = [] if rates == "-" else rates.split(",")
+            if tag != "R" or len(mr) != len(o["rates"]) or "x" in mr or \
+                    not all(close(a, Fraction(b)) for a, b in zip(o["rates"], mr)):
+                return f"{kind}: rates impl {o['rates'][:3]!r} model {mr[:3]}"
+            if kind != "gr" and (total == "-" or not close(o["total"], Fraction(total))):
+                return f"{kind}: total impl {o['total']!r} model {total}"
+        elif kind in ("sum", "ec"):
+            if tag != "S" or not close(o["total"], Fraction(body)):
+                return f"{kind}: impl {o['total']!r} model {body}"
+        elif kind in ("sc", "mc", "data"):
+            mv = rlist(body)
+            if tag != "V" or len(mv) != len(o["vals"]) or not all(close(a, b) for a, b in zip(o["vals"], mv)):
+                return f"{kind}: impl {o['vals'][:4]!r} model {[float(v) for v in mv[:4]]!r}"
+        elif kind == "scc":
+            mg = [[None if t == "nan" else Fraction(t) for t in ([] if r == "-" else r.split(","))] for r in body.split(";")]
+            g = o["grid"]
+            if tag != "G" or len(mg) != len(g) or any(len(a) != len(b) for a, b in zip(g, mg)) or \
+                    any((x is None) != (y is None) or (x is not None and not close(x, y)) for a, b in zip(g, mg) for x, y in zip(a, b)):
+                return f"scc: impl {g!r} model {body[:200]}"
+    except Exception as e:          # unparsable record
+        return f"{kind}: model record {rec[:80]!r} ({type(e).__name__})"
+    return None
+
+
 def flush(run, drv, pending):
     out = drv.run()
-    for case, i, impl, band in pending:
+    for case, i, impl, band, hist in pending:
         o = out[i]
+        if hist is not None:
+            ih, observations, fscale = hist
+            recs = out[ih].split("|")
+            hd = []
+            if out[ih] in ("none", "bad-op") or len(recs) != len(observations) + 1:
+                hd.append(f"history of reads: model answered {out[ih][:120]!r}")
+            else:
+                for (kind, ob), rec in zip(observations, recs):
+                    d = obs_differs(kind, ob, rec)
+                    if d:
+                        hd.append(d)
+                        break
+                if not hd and (not recs[-1].startswith("F:") or Fraction(recs[-1][2:]) != Fraction(fscale)):
+                    hd.append(f"factor after the history: impl {fscale!r} model {recs[-1]}")
+            if hd:
+                run.mismatch(case, hd, out[ih][:300])
         if impl is None or impl == "loaded":
             # malformed file: both must refuse (or both accept)
             if (impl is None) != (o == "none"):
@@ -648,7 +905,7 @@ def run(run, rng, tier):
                 case = gen_quad_case(rng, tier, "qascii")
             else:
                 case = gen_quad_case(rng, tier, "qcsv")
-            run_case(run, drv, pending, case, tmp, str(n))
+            run_case(run, drv, pending, case, tmp, str(n), tier_quick=(tier == "quick"))
             n += 1
             if len(pending) >= 400:
                 flush(run, drv, pending)
